@@ -154,7 +154,22 @@ func (x *c07World) newContact() int {
 func (x *c07World) apply(op c07Op) (string, string) {
 	m := x.gc.MetadataStore()
 	c := x.contacts[op.C]
-	before := m.OpLog().Len()
+	// entries appended by the operation; through a running service only entries about contacts count (the service
+	// may write announcements of its own into the account group at any time)
+	logLen := func() int {
+		if x.svc == nil {
+			return m.OpLog().Len()
+		}
+		evs, _ := c13AllMeta(x.gc)
+		n := 0
+		for _, e := range evs {
+			if strings.HasPrefix(e.Metadata.EventType.String(), "EventTypeAccountContact") {
+				n++
+			}
+		}
+		return n
+	}
+	before := logLen()
 	var meta []byte
 	if op.Meta > 0 {
 		meta = []byte(fmt.Sprintf("meta-%d", op.Meta))
@@ -225,7 +240,7 @@ func (x *c07World) apply(op c07Op) (string, string) {
 	case "unblock":
 		_, err = m.ContactUnblock(vCtx, pk)
 	}
-	added := m.OpLog().Len() - before
+	added := logLen() - before
 	x.trace = append(x.trace, fmt.Sprintf("%s in %s -> err=%v appended=%d", op, c07StateNames[c.state], err != nil, added))
 	// expected outcome
 	next := c07Table[op.Kind][c.state]
